@@ -154,7 +154,22 @@ func (o *OCIDir) initIndex(r ref.Ref, locked bool) error {
 	if err != nil && !errors.Is(err, fs.ErrExist) {
 		return fmt.Errorf("failed creating %s: %w", r.Path, err)
 	}
-	// create/replace oci-layout file
+	// create oci-layout file
+	return writeLayoutFile(r.Path)
+}
+
+// writeLayoutFile creates the oci-layout file unless a valid one already exists.
+// The content is written to a temp file that is renamed into place, an interrupted write
+// must never leave a truncated file since every read of the layout depends on it.
+func writeLayoutFile(dir string) error {
+	layoutFile := path.Join(dir, imageLayoutFile)
+	//#nosec G304 users should validate references they attempt to open
+	if b, err := os.ReadFile(layoutFile); err == nil {
+		cur := v1.ImageLayout{}
+		if err := json.Unmarshal(b, &cur); err == nil && cur.Version != "" {
+			return nil
+		}
+	}
 	layout := v1.ImageLayout{
 		Version: "1.0.0",
 	}
@@ -162,14 +177,21 @@ func (o *OCIDir) initIndex(r ref.Ref, locked bool) error {
 	if err != nil {
 		return fmt.Errorf("cannot marshal layout: %w", err)
 	}
-	//#nosec G304 users should validate references they attempt to open
-	lfh, err := os.Create(layoutFile)
+	tmpFile, err := os.CreateTemp(dir, imageLayoutFile+".*.tmp")
 	if err != nil {
 		return fmt.Errorf("cannot create %s: %w", imageLayoutFile, err)
 	}
-	defer lfh.Close()
-	_, err = lfh.Write(lb)
+	tmpName := tmpFile.Name()
+	_, err = tmpFile.Write(lb)
+	errC := tmpFile.Close()
+	if err == nil {
+		err = errC
+	}
+	if err == nil {
+		err = os.Rename(tmpName, layoutFile)
+	}
 	if err != nil {
+		_ = os.Remove(tmpName)
 		return fmt.Errorf("cannot write %s: %w", imageLayoutFile, err)
 	}
 	return nil
@@ -241,22 +263,10 @@ func (o *OCIDir) writeIndex(r ref.Ref, i v1.Index, locked bool) error {
 	if err != nil && !errors.Is(err, fs.ErrExist) {
 		return fmt.Errorf("failed creating %s: %w", r.Path, err)
 	}
-	// create/replace oci-layout file
-	layout := v1.ImageLayout{
-		Version: "1.0.0",
-	}
-	lb, err := json.Marshal(layout)
+	// create oci-layout file if needed
+	err = writeLayoutFile(r.Path)
 	if err != nil {
-		return fmt.Errorf("cannot marshal layout: %w", err)
-	}
-	lfh, err := os.Create(path.Join(r.Path, imageLayoutFile))
-	if err != nil {
-		return fmt.Errorf("cannot create %s: %w", imageLayoutFile, err)
-	}
-	defer lfh.Close()
-	_, err = lfh.Write(lb)
-	if err != nil {
-		return fmt.Errorf("cannot write %s: %w", imageLayoutFile, err)
+		return err
 	}
 	// create/replace index.json file
 	tmpFile, err := os.CreateTemp(r.Path, "index.json.*.tmp")
